@@ -292,3 +292,59 @@ impl Default for Recovery {
         Self::new()
     }
 }
+
+#[cfg(feature = "verif")]
+impl Recovery {
+    /// Verification hook: canonical dump of the recovery state machine.
+    pub fn verif_fp(&self, now: Instant, out: &mut Vec<u64>) {
+        let Recovery {
+            receiver_supports_sack,
+            last_ack,
+            phase,
+        } = *self;
+        out.push(receiver_supports_sack as u64);
+        match last_ack {
+            None => out.push(u64::MAX),
+            Some(LastAck { window, ack_nr }) => {
+                out.push(((window as u64) << 16) | ack_nr.0 as u64);
+            }
+        }
+        match phase {
+            RecoveryPhase::IgnoringUntilRecoveryPoint { recovery_point } => {
+                out.push(1);
+                out.push(recovery_point.0 as u64);
+            }
+            RecoveryPhase::CountingDuplicates { dup_acks } => {
+                out.push(2);
+                out.push(dup_acks as u64);
+            }
+            RecoveryPhase::Recovering(Recovering {
+                recovery_point,
+                high_rxt,
+                total_retransmitted_segments,
+                pipe_estimate: Pipe { pipe, recalc_timer },
+                cwnd,
+            }) => {
+                out.push(3);
+                out.push(recovery_point.0 as u64);
+                out.push(high_rxt.0 as u64);
+                out.push(total_retransmitted_segments as u64);
+                out.push(pipe as u64);
+                match recalc_timer {
+                    None => out.push(u64::MAX / 3),
+                    Some(t) => out.push(crate::verif::rel_instant(now, t)),
+                }
+                out.push(cwnd as u64);
+            }
+        }
+    }
+
+    /// Verification hook: 0 = counting duplicates, 1 = recovering, 2 = ignoring until recovery point.
+    pub fn verif_phase(&self) -> u8 {
+        match self.phase {
+            RecoveryPhase::CountingDuplicates { .. } => 0,
+            RecoveryPhase::Recovering(..) => 1,
+            RecoveryPhase::IgnoringUntilRecoveryPoint { .. } => 2,
+        }
+    }
+}
